@@ -698,7 +698,7 @@ func runConc(cc *ConcCase, seed uint64) (hist []HOp, fails [][2]string) {
 			r := lib.NewRng(seed*1000003 + uint64(g))
 			arrived.Add(1)
 			for i := 0; arrived.Load() < int64(n); i++ {
-				if i > 300 {
+				if i > 20000 {
 					runtime.Gosched()
 				}
 			}
@@ -1100,7 +1100,9 @@ func stampedeWait(c *lib.Ctx, r *lib.Rng) {
 	if nfirst != 1 {
 		c.Fail("first-waiter-not-unique", fmt.Sprintf("%d of %d simultaneous GetOrWait calls were told they are the first", nfirst, ng), in)
 	}
-	time.Sleep(20 * time.Microsecond)
+	for i := 0; i < 30; i++ {
+		runtime.Gosched()
+	}
 	for g := 0; g < ng; g++ {
 		if woke[g].Load() {
 			c.Fail("wakeup-before-added", "a waiter proceeded although the key has not been added", in)
@@ -1109,7 +1111,9 @@ func stampedeWait(c *lib.Ctx, r *lib.Rng) {
 	}
 	m.Add(8, 1) // another key, same shard when nsh == 1 or 4 (8 & 3 == 0 != 7 & 3: different shard), must wake nobody
 	m.Set(11, 1) // 11 & 3 == 3 == 7 & 3: same shard
-	time.Sleep(20 * time.Microsecond)
+	for i := 0; i < 30; i++ {
+		runtime.Gosched()
+	}
 	for g := 0; g < ng; g++ {
 		if woke[g].Load() {
 			c.Fail("wakeup-spurious", "adding another key released a waiter", in)
